@@ -104,6 +104,9 @@ func (s *Session) readHandshake() (handshakeData, error) {
 				return data, err
 			}
 		case strings.HasPrefix(line, ";PQ"): // Secure password challenge
+			if len(line) < 5 {
+				return data, errors.New("Malformed secure login challenge")
+			}
 			data.SecureChallenge = line[5:]
 
 		case strings.HasSuffix(line, ">"): // Prompt
